@@ -236,3 +236,10 @@ ENTRIES = [
     G('uuid-local', F, "        self.fields[self.WARC_RECORD_ID] = '<{0}>'.format(uuid.uuid4().urn)\n",
       "        record_uuid = uuid.uuid4()\n        self.fields[self.WARC_RECORD_ID] = '<{0}>'.format(record_uuid.urn)\n"),
 ]
+
+ENTRIES += [
+    {'id': 'C05/revisit-lookup-placeholder', 'prop': 'C05', 'kind': 'break', 'expect': 'C05-D6', 'edits': [('wpull/warc/recorder.py',
+      "fields.get('WARC-Payload-Digest', '').upper()", "fields.get('WARC-Payload-Digest', '-').upper()")]},
+    {'id': 'C04/revisit-lookup-placeholder', 'prop': 'C04', 'kind': 'break', 'expect': 'C04-D6', 'edits': [('wpull/warc/recorder.py',
+      "fields.get('WARC-Payload-Digest', '').upper()", "fields.get('WARC-Payload-Digest', '-').upper()")]},
+]
